@@ -368,5 +368,5 @@ B2 == LET s1 == Call(B1, "updateAVS2", RC("evm", "run", "cA", "a1", "-")).st
           s4 == Call(s3, "challenge", RC("evm", "run", "cA", "a1", "-")).st
       IN  [s4 EXCEPT !.ckey["o1"] = "k7", !.prevkey = {"o1"}]     \* o1 replaced k1 by k7 (SetConsKey with another key)
 
-BaseState(b, ch) == [ (CASE b = "B0" -> B0 [] b = "B1" -> B1 [] b = "B2" -> B2) EXCEPT !.mainnet = (ch = "main") ]
+BaseState(b, ch) == [ (CASE b = "B0" -> B0 [] b = "B1" -> B1 [] b = "B2" -> B2) EXCEPT !.mainnet = (ch # "test") ]   \* "main2": a mainnet id with another revision number
 =============================================================================
